@@ -1271,6 +1271,25 @@ def joiner_list_read_during_pending_change(**kw):
     return sc.rec
 
 
+def joiner_snapshot_lists_itself(**kw):
+    """KF-C10-3 (found by the proof worker on the refinement of the snapshot fragment to AbstractM: the run of
+    coq/Raft/RefineM2Finding.v, respecting the transport's member filter at every delivery and connect).  Voters 1-4,
+    joiners 5 and 6.  Node 5 is started empty with the current list, receives the log up to and including its own
+    'add 5' (entry 6, uncommitted), applies up to 5 and takes a snapshot of position 5: the member set written into it is
+    its table plus ITSELF, {1,2,3,4,5}, although the configuration of position 5 is {1,2,3,4} (__clusterBeforeChange skips
+    entries that name the node itself, and a node does not know whether it is a member).  5 is elected by 1 (holds
+    'add 5') and 2 (lists 5 through a stale uncommitted 'add 5' of an older term), and its snapshot is installed by 2:
+    node 2 now lists 5 with no 'add 5' anywhere in its log.  3 is elected by {2,4}, overwrites 'add 5', commits 'add 6'
+    and more with {3,4,6}; 2 is elected by 1 and 5 - three votes of ITS five-member table - and commits a no-op at
+    position 7 where node 3 committed 'add 6'."""
+    import os
+    sc = Script(base_cfg([1, 2, 3, 4], tspan=20, fallback=100, batch=1000, chunk=10 ** 6, dyn=True), **kw)
+    path = os.path.join(os.path.dirname(os.path.abspath(__file__)), 'data', 'joiner_snapshot_events.txt')
+    for ev in eval('[' + open(path).read() + ']'):
+        sc.rec.do(ev)
+    return sc.rec
+
+
 def journal_cut_after_compaction(**kw):
     """a journaled follower whose journal has been through a head drop (log compaction: clear + re-append) later has
     to cut an uncommitted suffix for a new leader, with records of different sizes around the cut point, appends and
@@ -1596,6 +1615,7 @@ SCENARIOS = {'d7': d7, 'd8': d8, 'd17': d17, 'd16': d16, 'd1': d1, 'd20': d20,
              'observer_of_snapshot_installed_voter': observer_of_snapshot_installed_voter,
              'readded_address_partial_replay': readded_address_partial_replay,
              'joiner_list_read_during_pending_change': joiner_list_read_during_pending_change,
+             'joiner_snapshot_lists_itself': joiner_snapshot_lists_itself,
              'journal_cut_after_compaction': journal_cut_after_compaction,
              'snapshot_install_changes_cluster_size': snapshot_install_changes_cluster_size,
              'chunk_keepalive_is_not_an_ack': chunk_keepalive_is_not_an_ack,
